@@ -313,6 +313,29 @@ func genC13(c *Ctx) {
 		}
 	}
 	c13RandFailure(c)
+	// authenticated but malicious key-exchange payloads: a peer that takes part in the exchange puts something
+	// unparsable (or somebody else's key) where its public key and signature belong, encrypted and MACed correctly
+	for _, typ := range []byte{0x11, 0x12} {
+		muts := []Mut{MBadX(0), MBadX(1), MBadX(2), MBadX(3), MBadX(4), MImpersonate(3)}
+		for _, m := range muts {
+			for _, late := range []bool{false, true} {
+				pol := []int{polV3, polV2}[(int(typ)+len(m.Coq))%2]
+				run := akeSweepRun(pol, c.R.U64(), typ, m, late, true, late)
+				c.Count("authenticated-malicious-ake-payload")
+				if run.panicked || run.s.panicked {
+					c.Violate("panic", fmt.Sprintf("Receive(type=%#x,%s)", typ, m.Coq), "panic while processing an authenticated key-exchange message with a malformed payload", run.s.trace)
+				}
+				for who := 1; who <= 2; who++ {
+					if !run.s.ps[who].c.IsEncrypted() && run.rejected {
+						c.Violate("unusable-after-hostile-input", fmt.Sprintf("type=%#x,%s", typ, m.Coq), "after the malformed payload was rejected the genuine exchange did not complete", run.s.trace)
+						break
+					}
+				}
+				c.AddScenario(run.s, run.pols)
+				c.Rep.Evaluations++
+			}
+		}
+	}
 }
 
 // randomness failure at the k-th read
